@@ -724,3 +724,22 @@ package originium
 //@ func (*originium.DB).run
 //@ trusted thread entry; only its lock and wait-level clauses are checked against the body (C12, C15)
 //@ serves send:originium.DB.flushC send:originium.DB.closeC recv:originium.DB.closed
+//
+// C14 / C03 (recovery of the table side): a table file whose footer cannot be read or decoded - empty
+// or cut short, the leftover of a flush or compaction that a crash interrupted before the file was
+// complete; its entries are still in the wal or in the tables it was meant to replace - must not
+// stop recovery: no Panicf of the loop is reachable because of it. Thin: only these assertions.
+//@ ghost BadFooter Bool
+//@ func (*originium.levelManager).recover -> r
+//@ props C14 C03
+//@ thin ^assert
+//@ assigns writeset
+//@ after_call (*os.File).Seek#0: ghost BadFooter = (result1 != nil)
+//@ after_call (*os.File).Read#0: ghost BadFooter = BadFooter || result1 != nil
+//@ after_call (*table.Footer).Decode#0: ghost BadFooter = BadFooter || result != nil
+//@ before_call (logger.Logger).Panicf#3: assert !BadFooter
+//@ before_call (logger.Logger).Panicf#4: assert !BadFooter
+//@ before_call (logger.Logger).Panicf#5: assert !BadFooter
+//@ before_call (logger.Logger).Panicf#6: assert !BadFooter
+//@ before_call (logger.Logger).Panicf#7: assert !BadFooter
+//@ before_call (logger.Logger).Panicf#8: assert !BadFooter
